@@ -561,18 +561,34 @@ pub fn gen_leak(seed: u64) -> Scenario {
                         scripts[c].steps.push(Step::Op { token: tok.clone(), op: OpSpec::Search(simple_search(&tok, &mut r)), mods: Mods::default(), cancel_after_polls: None });
                     }
                     55..=89 => {
-                        // stream: direct or adapted; read to the end or finished early; finished once or twice
-                        let plan = gen_items_plan(&mut r, &tok, 4, true, &[0, 0, 1]);
+                        // stream: direct or adapted; read to the end or finished early; finished once or twice;
+                        // sometimes the server stalls after the items (no SearchResultDone ever)
+                        let stalls = r.chance(1, 4);
+                        let plan = gen_items_plan(&mut r, &tok, 4, !stalls, &[0, 0, 1]);
+                        let adapter = if r.chance(1, 2) { Adapter::Direct } else { Adapter::EntriesOnly };
+                        // number of next() calls that cannot block: for EntriesOnly only entries count
                         let n_items = match &plan {
-                            ReplyPlan::Items { items, .. } => items.len(),
+                            ReplyPlan::Items { items, .. } => {
+                                if adapter == Adapter::EntriesOnly && stalls {
+                                    items.iter().filter(|i| matches!(i.op, RespOp::Entry { .. })).count()
+                                } else {
+                                    items.len()
+                                }
+                            }
                             _ => 0,
                         };
                         sc.plan.by_token.insert(tok.clone(), plan);
-                        let adapter = if r.chance(1, 2) { Adapter::Direct } else { Adapter::EntriesOnly };
                         let slot = slot_ctr[c];
                         slot_ctr[c] += 1;
                         scripts[c].steps.push(Step::Open { token: tok.clone(), slot, search: simple_search(&tok, &mut r), adapter, mods: Mods::default() });
-                        let reads = if r.chance(1, 2) { n_items + 1 } else { r.usize(n_items + 1) };
+                        let reads = if stalls {
+                            // an entry followed only by references would make EntriesOnly wait for more: stay clear of the tail
+                            if adapter == Adapter::EntriesOnly { r.usize(n_items + 1).saturating_sub(0).min(n_items) } else { r.usize(n_items + 1) }
+                        } else if r.chance(1, 2) {
+                            n_items + 1
+                        } else {
+                            r.usize(n_items + 1)
+                        };
                         for _ in 0..reads {
                             scripts[c].steps.push(Step::Next { slot, cancel_after_polls: None });
                         }
@@ -642,5 +658,100 @@ pub fn gen_leak(seed: u64) -> Scenario {
     }
     let start = sc.id_table.as_ref().map(|t| t.0 as i64).unwrap_or(0);
     keep_ids_apart(&mut sc, start);
+    sc
+}
+
+pub const ID_MAX: i32 = 2147483647;
+
+/// Family IDS: the ID table is pre-positioned near the upper end with arbitrary IDs in use;
+/// many short operations from several handles; yield between allocation and enqueue.
+pub fn gen_ids(seed: u64) -> Scenario {
+    let mut r = Rng::new(seed);
+    let mut sc = Scenario::new("IDS");
+    sc.knobs = gen_knobs(&mut r, false);
+    sc.knobs.yield_pm = *r.pick(&[0, 300, 700, 1000, 1000]);
+    sc.knobs.net_delay_max_ms = *r.pick(&[0, 0, 1, 3]);
+    let last: i32 = match r.below(10) {
+        0 => 0,
+        1 => r.below(ID_MAX as u64) as i32,
+        2 => ID_MAX,
+        _ => ID_MAX - r.below(65) as i32,
+    };
+    let mut ph: std::collections::BTreeSet<i32> = Default::default();
+    if r.chance(1, 2) {
+        ph.insert(1);
+    }
+    if r.chance(1, 2) {
+        ph.insert(ID_MAX);
+    }
+    if r.chance(1, 2) {
+        for i in 1..=r.below(20) as i32 {
+            ph.insert(i);
+        }
+    }
+    if r.chance(1, 2) {
+        for i in 1..=r.below(6) as i64 {
+            let x = last as i64 + i;
+            if x <= ID_MAX as i64 {
+                ph.insert(x as i32);
+            }
+        }
+    }
+    for _ in 0..r.usize(8) {
+        ph.insert(1 + r.below(40) as i32);
+    }
+    for _ in 0..r.usize(4) {
+        ph.insert(ID_MAX - r.below(70) as i32);
+    }
+    while ph.len() > 40 {
+        let x = *ph.iter().next().unwrap();
+        ph.remove(&x);
+    }
+    sc.id_table = Some((last, ph.into_iter().collect()));
+    let nclients = 2 + r.usize(5);
+    let mut budget = 60usize;
+    for c in 0..nclients {
+        let mut cs = ClientScript { steps: vec![], start_delay_ms: *r.pick(&[0, 0, 0, 1, 2]) };
+        let n = (3 + r.usize(8)).min(budget);
+        budget -= n;
+        let mut held: Option<(String, usize)> = None;
+        let mut slot = 0;
+        for k in 0..n {
+            let tok = format!("c{c}k{k}");
+            match r.below(20) {
+                0..=12 => {
+                    let op = gen_single_op(&mut r, &tok);
+                    let plan = gen_single_plan(&mut r, &op, &tok, &[0, 0, 0, 1, 2, 5], false);
+                    sc.plan.by_token.insert(tok.clone(), plan);
+                    cs.steps.push(Step::Op { token: tok, op, mods: Mods::default(), cancel_after_polls: None });
+                }
+                13..=14 => {
+                    let plan = gen_items_plan(&mut r, &tok, 2, true, &[0, 1]);
+                    sc.plan.by_token.insert(tok.clone(), plan);
+                    cs.steps.push(Step::Op { token: tok.clone(), op: OpSpec::Search(simple_search(&tok, &mut r)), mods: Mods::default(), cancel_after_polls: None });
+                }
+                15..=16 if held.is_none() => {
+                    // a search that stays outstanding: no items, no done, the stream is held open
+                    sc.plan.by_token.insert(tok.clone(), ReplyPlan::Items { items: vec![], done: None, extra: vec![] });
+                    cs.steps.push(Step::Open { token: tok.clone(), slot, search: simple_search(&tok, &mut r), adapter: Adapter::Direct, mods: Mods::default() });
+                    held = Some((tok, slot));
+                    slot += 1;
+                }
+                17..=18 => {
+                    if let Some((t, _)) = &held {
+                        // the state a long history of allocations would produce: the counter is about to reach an ID still in use
+                        cs.steps.push(Step::SetIdCounterBefore { token: t.clone(), back: 1 + r.below(4) as i32 });
+                    } else {
+                        cs.steps.push(Step::Sleep { ms: r.below(3) });
+                    }
+                }
+                _ => cs.steps.push(Step::Op { token: tok, op: OpSpec::Abandon(IdRef::Raw(123_456_789)), mods: Mods::default(), cancel_after_polls: None }),
+            }
+        }
+        if let Some((_, s)) = held {
+            cs.steps.push(Step::Finish { slot: s });
+        }
+        sc.clients.push(cs);
+    }
     sc
 }
